@@ -73,6 +73,20 @@ CLAIMED['C15'] = dict(
     technique='Lean 4 structural-induction proof of the selection rule + differential correspondence and mutate-after probes on real specs',
     design='6/C15')
 
+CLAIMED['C03'] = dict(
+    text='Theorems over the complete space of from-states x targets x hook points x before/after-super variants (decided by the '
+         'kernel): C03_hook_fault_excepted (EXCEPTED with exactly the fault, future raising it, closed, cleanups once, nothing '
+         'escapes), C03_user_exception_excepted, C03_pause_hook_fault_reported / C03_play_hook_fault_reported, and the witness '
+         'C03_witness_fault_after_close for the recorded finding F18. The fault enumeration on the real code (every hook x '
+         'occurrence x variant x scenario, listeners, cleanups, call_soon, steps, construction) checks every clause and compares '
+         'the faulted transition with the model.',
+    note='Modelled, not verified: StateMachine.transition_to / Process.transition_failed / on_terminated / close with user '
+         'overrides of every hook (hand-written Lean mirror, compared with the real outcome of every faulted transition). '
+         'Listener faults are outside the model (EventHelper swallows them): monitor against the fault-free run. Known finding '
+         'F18 is reported as KNOWN-FINDING, any other failure is a violation.',
+    technique='Lean 4 exhaustive case proof over a transition model with one injected fault + fault enumeration on the real code',
+    design='6/C03')
+
 PENDING_REASON = 'check not built yet in this revision (planned: Lean model + correspondence, see DESIGN.md section 6)'
 
 
